@@ -1,6 +1,9 @@
 // C05 correspondence harness: momo::SegmentedArray, constant and sqrt segment sizing, logInitialItemCount 0..5
-// (see c05_array.h).  -DC05_PART=1: std::string items;  -DC05_PART=2: the other item types and memory managers
+// (see c05_array.h).  -DC05_PART=1: std::string items;  -DC05_PART=2: the other item types and memory managers;
+// -DC05_PART=3: the "not nothrow-movable but nothrow-swappable" item type and the directed length_error scenario
+// (pvAllocateSegment: a segment whose byte size does not fit size_t)
 #include "c05_array.h"
+#include <stdexcept>
 using namespace c05;
 
 template<momo::SegmentedArrayItemCountFunc F, size_t L, typename T, typename MM>
@@ -12,6 +15,169 @@ static const momo::SegmentedArrayItemCountFunc sqrt_ = momo::SegmentedArrayItemC
 typedef LogMM<false, false> MM00;
 typedef LogMM<true, false> MM10;
 typedef LogMM<true, true> MM11;
+
+// ---------------------------------------------------------------------------------------------------------------------
+// SegmentedArray::pvAllocateSegment throws std::length_error("Invalid item count") when
+//     Settings::GetItemCount(segIndex) > SIZE_MAX / sizeof(Item).
+// The segments of a SegmentedArray are allocated one after the other, so the condition is reachable only where an early
+// segment is already that large: items of 4 KiB and logInitialItemCount = 50 (sqrt: segment 0 has 2^50 items = 2^62 bytes,
+// segments 1..3 2^51 items = 2^63 bytes, segment 4 would have 2^52 items = 2^64 bytes) or 52 (cnst: every segment 2^64 bytes).
+// The memory manager keeps the ledger with the sizes the container asked for but really allocates at most 64 KiB per block;
+// the scenario never has more than 16 items, all in segment 0.
+// Property level only (C05: contents / count as the reference sequence; C04: a failed Reserve / SetCount / CreateCap /
+// constructor leaves contents, count and capacity unchanged and leaks nothing; the container stays usable).
+struct BigItem
+{
+	uint32_t id;
+	char pad[4096 - sizeof(uint32_t)];	// never written
+	BigItem() : id(0) {}
+	explicit BigItem(uint32_t i) : id(i) {}
+};
+static_assert(sizeof(BigItem) == 4096, "BigItem");
+
+struct FakeWorld { std::map<void*, size_t> live; std::vector<std::string> ev; size_t bad = 0; };
+static FakeWorld& fw() { static FakeWorld w; return w; }
+class FakeMM
+{
+public:
+	explicit FakeMM() noexcept {}
+	FakeMM(FakeMM&&) noexcept {}
+	FakeMM(const FakeMM&) noexcept {}
+	~FakeMM() = default;
+	FakeMM& operator=(const FakeMM&) = delete;
+	void* Allocate(size_t size)
+	{
+		void* p = std::malloc(std::min<size_t>(size, size_t{1} << 16));
+		if (p == nullptr) throw std::bad_alloc();
+		fw().live[p] = size; fw().ev.push_back(fmt("a%zu", size));
+		return p;
+	}
+	void Deallocate(void* ptr, size_t size) noexcept
+	{
+		fw().ev.push_back(fmt("d%zu", size));
+		auto it = fw().live.find(ptr);
+		if (it == fw().live.end() || it->second != size) { ++fw().bad; return; }
+		fw().live.erase(it);
+		std::free(ptr);
+	}
+};
+
+template<typename C>
+struct LengthErrorScenario
+{
+	typedef typename C::Settings S;
+	Ctx& c; Rng& rng; const char* cfg;
+	std::unique_ptr<C> obj; std::vector<uint32_t> ref;
+	std::string hist;
+	bool broken = false;
+
+	std::string blocks() { std::vector<size_t> v; for (auto& kv : fw().live) v.push_back(kv.second); std::sort(v.begin(), v.end()); std::string r; for (size_t x : v) r += fmt(" %zu", x); return r; }
+	std::string owned() {
+		std::vector<size_t> v;
+		if (obj) { for (size_t i = 0; i < obj->mSegments.GetCount(); ++i) v.push_back(S::GetItemCount(i) * sizeof(BigItem)); if (obj->mSegments.GetCapacity() > 0) v.push_back(obj->mSegments.GetCapacity() * sizeof(BigItem*)); }
+		std::sort(v.begin(), v.end()); std::string r; for (size_t x : v) r += fmt(" %zu", x); return r;
+	}
+	std::string contents() { const C& a = *obj; std::string r = fmt("%zu %zu|", a.GetCount(), a.GetCapacity()); for (size_t i = 0; i < a.GetCount(); ++i) r += fmt(" %u", a[i].id); return r; }
+	void fail(const std::string& what, const std::string& detail) {
+		c.fail("%s: %s seed=%llu config=[%s] history=[%s]", what.c_str(), detail.c_str(), (unsigned long long)c.seed, cfg, hist.c_str());
+		broken = true;
+	}
+	void check(const std::string& after) {
+		hist += after + "; ";
+		c.stats.evaluations++;
+		const C& a = *obj;
+		if (a.GetCount() != ref.size()) { fail("C05 sequence: size differs", fmt("size %zu expected %zu after [%s]", a.GetCount(), ref.size(), after.c_str())); return; }
+		for (size_t i = 0; i < ref.size(); ++i) if (a[i].id != ref[i]) { fail("C05 sequence: element differs", fmt("index %zu got %u expected %u after [%s]", i, a[i].id, ref[i], after.c_str())); return; }
+		if (a.GetCount() > a.GetCapacity()) fail("C05 capacity: size exceeds capacity", fmt("size %zu capacity %zu after [%s]", a.GetCount(), a.GetCapacity(), after.c_str()));
+		if (blocks() != owned()) fail("C04 leak", fmt("outstanding blocks [%s], the container owns [%s], after [%s]", blocks().c_str(), owned().c_str(), after.c_str()));
+		if (fw().bad) { fail("C04 bad deallocation", fmt("%zu after [%s]", fw().bad, after.c_str())); fw().bad = 0; }
+	}
+	// f must throw std::length_error; contents, count and capacity as before, only blocks the container owns outstanding
+	template<typename F> void mustThrow(const std::string& what, F f) {
+		if (broken) return;
+		std::string before = obj ? contents() : std::string();
+		std::string blocksBefore = blocks();
+		fw().ev.clear();
+		int outcome = 0;
+		try { f(); }
+		catch (const std::length_error&) { outcome = 1; }
+		catch (const std::bad_alloc&) { outcome = 2; }
+		catch (...) { outcome = 3; }
+		c.stats.count("length_error." + what.substr(0, what.find('(')));
+		c.stats.nontrivial(std::string(cfg) + "|" + what.substr(0, what.find('(')) + "|" + before.substr(0, before.find('|')));
+		if (outcome != 1) { fail("C05/C04 segment size overflow: no std::length_error", what + (outcome == 0 ? " returned" : outcome == 2 ? " threw std::bad_alloc" : " threw something else")); return; }
+		if (obj && contents() != before) { fail("C04 strong guarantee", fmt("[%s] threw and changed the container: before {%s} after {%s}", what.c_str(), before.c_str(), contents().c_str())); return; }
+		if (!obj && blocks() != blocksBefore) { fail("C04 leak", fmt("[%s] threw: outstanding blocks [%s], before [%s]", what.c_str(), blocks().c_str(), blocksBefore.c_str())); return; }
+		if (obj) check(what + " -> length_error");
+		else { hist += what + " -> length_error; "; c.stats.evaluations++; }
+	}
+	void push(uint32_t id) { if (ref.size() >= 15 || broken) return; BigItem x(id); if (rng.chance(1, 2)) obj->AddBack(x); else obj->AddBackVar(id); ref.push_back(id); check(fmt("AddBack %u", id)); }
+
+	// `okCap`: the largest capacity that can be reserved (0: not even the first segment)
+	void run(size_t okCap)
+	{
+		uint32_t next = 1;
+		size_t tooBig[3] = { okCap + 1, okCap + 1 + (size_t)rng.below(1000), okCap + (size_t{1} << 55) };
+		for (unsigned round = 0; round < 6 && !broken; ++round) {
+			hist.clear();
+			// constructors / factories: no object, no block
+			obj.reset();
+			for (size_t n : tooBig) {
+				mustThrow(fmt("CreateCap(%zu)", n), [&] { C t = C::CreateCap(n); (void)t; });
+				mustThrow(fmt("SegmentedArray(%zu)", n), [&] { C t(n); (void)t; });
+				mustThrow(fmt("SegmentedArray(%zu, item)", n), [&] { BigItem x(7); C t(n, x); (void)t; });
+				size_t calls = 0;
+				mustThrow(fmt("CreateCrt(%zu)", n), [&] { C t = C::CreateCrt(n, [&calls](BigItem* p) { ++calls; ::new(static_cast<void*>(p)) BigItem(9); }); (void)t; });
+				if (calls != 0 && !broken) fail("C04 CreateCrt", fmt("%zu creator calls although the capacity could not be reserved", calls));
+				if (broken) return;
+			}
+			if (!fw().live.empty()) { fail("C04 leak", fmt("outstanding blocks [%s] after failed constructors", blocks().c_str())); return; }
+			// an empty object, then a non-empty one
+			obj.reset(new C()); ref.clear(); check("new");
+			unsigned items = okCap == 0 ? 0 : (unsigned)rng.range(1, 12);
+			for (unsigned phase = 0; phase < 2 && !broken; ++phase) {
+				for (unsigned rep = 0; rep < 3 && !broken; ++rep) {
+					size_t n = tooBig[rng.below(3)];
+					switch (rng.below(okCap == 0 ? 5 : 3)) {
+					case 0: mustThrow(fmt("Reserve(%zu)", n), [&] { obj->Reserve(n); }); break;
+					case 1: mustThrow(fmt("SetCount(%zu)", n), [&] { obj->SetCount(n); }); break;
+					case 2: mustThrow(fmt("SetCount(%zu, item)", n), [&] { BigItem x(5); obj->SetCount(n, x); }); break;
+					// cnst: not even one item fits
+					case 3: mustThrow("AddBack(item)", [&] { BigItem x(5); obj->AddBack(x); }); break;
+					default: mustThrow("Insert(0, item)", [&] { BigItem x(5); obj->Insert(0, x); }); break;
+					}
+					// usable afterwards
+					if (broken) return;
+					if (obj->IsEmpty() != ref.empty()) fail("C05 IsEmpty", fmt("answered %d, size %zu", (int)obj->IsEmpty(), ref.size()));
+					if (okCap > 0 && ref.size() < 15 && rng.chance(1, 2)) push(next++);
+					else if (!ref.empty() && rng.chance(1, 2)) { obj->RemoveBack(1); ref.pop_back(); check("RemoveBack"); }
+					else if (!ref.empty()) { size_t j = (size_t)rng.below(ref.size()); (*obj)[j] = BigItem(next); ref[j] = next++; check(fmt("set %zu", j)); }
+					else { obj->Reserve(0); obj->SetCount(0); obj->Shrink(); check("Reserve(0) SetCount(0) Shrink"); }
+				}
+				if (phase == 0) {
+					for (unsigned i = 0; i < items && !broken; ++i) push(next++);
+					// the whole reservable capacity: segments 1..3 are allocated for real (ledger), so that a failing Reserve has
+					// something to give back; every other round keep them
+					if (okCap > 0 && !broken) {
+						if (round % 2 == 0) { obj->Reserve(okCap); check(fmt("Reserve(%zu)", okCap)); if (obj->GetCapacity() != okCap) fail("C05 reserve", fmt("capacity %zu after Reserve(%zu)", obj->GetCapacity(), okCap)); }
+						else { obj->Shrink(); check("Shrink"); }
+					}
+				}
+			}
+			obj.reset();
+			if (!fw().live.empty() || fw().bad) { fail("C04 leak", fmt("outstanding blocks [%s], %zu bad deallocations after destroying the container", blocks().c_str(), fw().bad)); return; }
+		}
+	}
+};
+
+template<typename C>
+static void lengthError(Ctx& c, Rng& rng, const char* cfg, size_t okCap)
+{
+	fw() = FakeWorld();
+	LengthErrorScenario<C> s{ c, rng, cfg };
+	s.run(okCap);
+	c.stats.count(std::string("config.") + cfg);
+}
 
 int main(int argc, char** argv)
 {
@@ -40,6 +206,13 @@ int main(int argc, char** argv)
 	runConfig<SegAdapter<Seg<cnst, 2, TM, MM00>>>(c, rng, "s_cnst2_tm", "Allocate-only manager", b);
 	runConfig<SegAdapter<Seg<sqrt_, 2, CO, MM00>>>(c, rng, "s_sqrt2_co", "Allocate-only manager", b);
 	runConfig<SegAdapter<Seg<cnst, 0, CO, MM00>>>(c, rng, "s_cnst0_co", "Allocate-only manager", b);
+#endif
+#if !defined(C05_PART) || C05_PART == 3
+	runConfig<SegAdapter<Seg<sqrt_, 1, SW, MM00>>>(c, rng, "s_sqrt1_sw", "Allocate-only manager", b);
+	runConfig<SegAdapter<Seg<cnst, 2, SW, MM10>>>(c, rng, "s_cnst2_sw", "Reallocate manager", b);
+	// segments 0..3 of the sqrt sizing fit (2^50 + 3 * 2^51 items), segment 4 does not; no segment of the cnst sizing fits
+	lengthError<Seg<sqrt_, 50, BigItem, FakeMM>>(c, rng, "SegmentedArray<sqrt,50> of 4 KiB items", (size_t{1} << 50) + 3 * (size_t{1} << 51));
+	lengthError<Seg<cnst, 52, BigItem, FakeMM>>(c, rng, "SegmentedArray<cnst,52> of 4 KiB items", 0);
 #endif
 	return c.finish();
 }
